@@ -21,7 +21,7 @@ def run(repo: Repo, rep: Report):
         ("R-SITE.clip-region", "_resolve_clip_path interpreted on a schematic clipPath: union of the children (each under its own clip-rule, <use> instantiated first), transformed child > clipPath > referencing CTM, intersected with the clipPath's own clip"),
         ("R-SITE.clip-stacking", "_traverse interpreted on a schematic document: a context's clips are the ancestors' clips followed by its own, resolved with its own CTM (siblings sharing a clipPath included)"),
         ("R-ORDER.clip-application", "_simplify interpreted on schematic documents: every emitted piece (fill and stroke) is intersected with all stacked clips after being stroked and transformed; no clip-path/clipPath survives"),
-        ("R-SITE.cascade", "children of a clipPath are rendered with inherited properties (clip-rule on the clipPath element)"),
+        ("R-SITE.cascade", "children of a clipPath are rendered with the properties of their own context (clip-rule on the clipPath element reaches them; the clip-rule in effect at the referencing element does not)"),
     ]:
         rep.rule(rid, txt)
     # the boolean plumbing (C13) is a necessary condition here too
@@ -29,6 +29,7 @@ def run(repo: Repo, rep: Report):
     c13.run(repo, rep)
     sem.check_resolve_clip_path(repo, rep, "R-SITE.clip-region")
     sem.check_clip_cascade(repo, rep, "R-SITE.cascade")
+    sem.check_clip_rule_context(repo, rep, "R-SITE.cascade")
     sem.check_traverse(repo, rep, {"clips": "R-SITE.clip-stacking"})
     sem.check_simplify(repo, rep, {"clip": "R-ORDER.clip-application"})
     sem.check_clip_to_viewbox(repo, rep, "R-SITE.rule-provenance")
